@@ -147,6 +147,9 @@ def obligations(tier: str):
                 Chx("exec", h_exec, timeout=T, path_timeout=120, fix={"shape": 0, "akind": 0}, split={"f": fs}),
                 Chx("exec", h_exec, timeout=T, path_timeout=120, fix={"shape": 1, "akind": 1}, split={"f": fs})]
     avals = list(range(-3, 4))
-    return [Chx("sound", h_sound_t, timeout=T, path_timeout=300, split={"mask": [4, 7], "f": fs, "a": avals}),
-            Chx("complete", h_complete_t, timeout=T, path_timeout=300, split={"mask": [4, 7], "f": fs, "a": avals}),
+    # full bounds: soundness on BRANCH+LINE+CHECKED, completeness on CHECKED alone; the other metric set on the quick bounds
+    return [Chx("sound", h_sound_t, timeout=T, path_timeout=300, fix={"mask": 7}, split={"f": fs, "a": avals}),
+            Chx("complete", h_complete_t, timeout=T, path_timeout=300, fix={"mask": 4}, split={"f": fs, "a": avals}),
+            Chx("sound", h_sound, timeout=T, path_timeout=300, fix={"mask": 4}, split={"f": fs}),
+            Chx("complete", h_complete, timeout=T, path_timeout=300, fix={"mask": 7}, split={"f": fs}),
             Chx("exec", h_exec, timeout=T, path_timeout=300, split={"f": fs, "shape": [0, 1]})]
